@@ -5,6 +5,23 @@ CATALOGUE = {}
 
 # --------------------------------------------------------------------- C08
 CATALOGUE['C08'] = [
+    V('silent: _pop by negative slice, every caller passes >= 1',
+      '_DocumentTemplate.py',
+      """        l_ = len(self._data)
+        i = l_ - i
+        r = self._data[l_ - 1]
+        self._data[i:l_] = []
+        return r""",
+      """        r = self._data[-1]
+        del self._data[-i:]
+        return r"""),
+    V('silent: unguarded pop of the recursion guard, _pop(0) is exact',
+      'DT_String.py',
+      """            if pushed:
+                md._pop(pushed)
+            raise SystemError""",
+      """            md._pop(pushed)
+            raise SystemError"""),
     V('let: pop after body, no finally', 'DT_Let.py',
       """        try:
             for name, expr in self.args:
@@ -746,6 +763,15 @@ CATALOGUE['C09'] = [
 
 # --------------------------------------------------------------------- C02
 CATALOGUE['C02'] = [
+    V('silent: class-level _vars default, initvars still rebinds it',
+      'DT_String.py', "    shared_globals = {}\n",
+      "    shared_globals = {}\n    _vars = {}\n"),
+    V('class-level _vars default kept when present', 'DT_String.py',
+      "    shared_globals = {}\n",
+      "    shared_globals = {}\n    _vars = {}\n", 'C02.R6',
+      extra=[("        self._vars = {}\n",
+              "        if not hasattr(self, '_vars'):\n"
+              "            self._vars = {}\n")]),
     V('vars and kw pushes swapped', 'DT_String.py',
       """        if self._vars:
             push(self._vars)
@@ -1447,6 +1473,37 @@ CATALOGUE['C03'] = [
 
 # --------------------------------------------------------------------- C19
 CATALOGUE['C19'] = [
+    V('silent: join_unicode decodes in place, all callers pass lists',
+      '_DocumentTemplate.py',
+      """        rendered = list(rendered)
+        for i in range(len(rendered)):
+            if isinstance(rendered[i], bytes):
+                rendered[i] = rendered[i].decode(encoding)""",
+      """        for i, piece in enumerate(rendered):
+            if isinstance(piece, bytes):
+                rendered[i] = piece.decode(encoding)"""),
+    V('cook cache keyed by class and source, not by encoding',
+      'DT_String.py',
+      "            self._v_blocks = self.parse(self.read())",
+      """            source = self.read()
+            key = (self.__class__, source)
+            blocks = String._cooked.get(key)
+            if blocks is None:
+                blocks = String._cooked[key] = self.parse(source)
+            self._v_blocks = blocks""", 'C19.R6',
+      extra=[("    shared_globals = {}\n",
+              "    shared_globals = {}\n    _cooked = {}\n")]),
+    V('silent: cook cache keyed by class, encoding and source',
+      'DT_String.py',
+      "            self._v_blocks = self.parse(self.read())",
+      """            source = self.read()
+            key = (self.__class__, self.encoding, source)
+            blocks = String._cooked.get(key)
+            if blocks is None:
+                blocks = String._cooked[key] = self.parse(source)
+            self._v_blocks = blocks""",
+      extra=[("    shared_globals = {}\n",
+              "    shared_globals = {}\n    _cooked = {}\n")]),
     V('section parsed by the sub-template', 'DT_String.py',
       """                section._v_blocks = section.blocks = self.parse(
                     text[:l_], sstart)""",
@@ -1524,6 +1581,29 @@ CATALOGUE['C19'] = [
 
 # --------------------------------------------------------------------- C17
 CATALOGUE['C17'] = [
+    V('silent: __getstate__ names the two volatile attributes',
+      'DT_String.py',
+      """        d = {}
+        for k, v in self.__dict__.items():
+            if k[:3] in _special:
+                continue
+            d[k] = v
+        return d""",
+      """        d = self.__dict__.copy()
+        for k in ('_v_blocks', '_v_cooked'):
+            d.pop(k, None)
+        return d"""),
+    V('__getstate__ keeps _v_cooked', 'DT_String.py',
+      """        d = {}
+        for k, v in self.__dict__.items():
+            if k[:3] in _special:
+                continue
+            d[k] = v
+        return d""",
+      """        d = self.__dict__.copy()
+        for k in ('_v_blocks', ):
+            d.pop(k, None)
+        return d""", 'C17.R3'),
     V('munge: empty mapping ignored', 'DT_String.py',
       "        if mapping is not None or vars:",
       "        if mapping or vars:", 'C17.R7'),
@@ -1614,9 +1694,14 @@ CATALOGUE['C17'] = [
             self.raw = source_string""", 'C17.R2'),
     V('getstate slice width 2', 'DT_String.py', "            if k[:3] in _special:",
       "            if k[:2] in _special:", 'C17.R3'),
-    V('getstate drops only _v_', 'DT_String.py',
+    # no template class assigns a _p_ attribute (the classes are not
+    # Persistent): which keys are kept is unchanged
+    V('silent: getstate drops only _v_', 'DT_String.py',
       "def __getstate__(self, _special=('_v_', '_p_')):",
-      "def __getstate__(self, _special=('_v_',)):", 'C17.R3'),
+      "def __getstate__(self, _special=('_v_',)):"),
+    V('getstate drops only _p_', 'DT_String.py',
+      "def __getstate__(self, _special=('_v_', '_p_')):",
+      "def __getstate__(self, _special=('_p_',)):", 'C17.R3'),
     V('file template caches content', 'DT_String.py',
       """            with open(self.raw) as fd:
                 raw = fd.read()
@@ -2026,6 +2111,40 @@ CATALOGUE['C11'] = [
 
 # --------------------------------------------------------------------- C01
 CATALOGUE['C01'] = [
+    V('cook cache keyed by the source text only', 'DT_String.py',
+      "            self._v_blocks = self.parse(self.read())",
+      """            source = self.read()
+            blocks = String._cooked.get(source)
+            if blocks is None:
+                blocks = String._cooked[source] = self.parse(source)
+            self._v_blocks = blocks""", 'C01.R7',
+      extra=[("    shared_globals = {}\n",
+              "    shared_globals = {}\n    _cooked = {}\n")]),
+    V('silent: cook cache keyed by reader class, encoding and source',
+      'DT_String.py',
+      "            self._v_blocks = self.parse(self.read())",
+      """            source = self.read()
+            key = (type(self), self.encoding, source)
+            blocks = String._cooked.get(key)
+            if blocks is None:
+                blocks = String._cooked[key] = self.parse(source)
+            self._v_blocks = blocks""",
+      extra=[("    shared_globals = {}\n",
+              "    shared_globals = {}\n    _cooked = {}\n")]),
+    V('line-end skip by str.strip()', 'DT_String.py',
+      """        mo = eol.match(text, start)
+        if mo is not None:
+            start = start + mo.end(0) - mo.start(0)""",
+      """        nl = text.find('\\n', start)
+        if nl >= 0 and not text[start:nl].strip():
+            start = nl + 1""", 'C01.R1'),
+    V('silent: line-end skip by str.strip(" \\t")', 'DT_String.py',
+      """        mo = eol.match(text, start)
+        if mo is not None:
+            start = start + mo.end(0) - mo.start(0)""",
+      """        nl = text.find('\\n', start)
+        if nl >= 0 and not text[start:nl].strip(' \\t'):
+            start = nl + 1"""),
     V('EPFS format accepts any run of digits and dots', 'DT_String.py',
       "'\\\\)(?P<fmt>[0-9]*[.]?[0-9]*[a-z]|[]![])',  # end",
       "'\\\\)(?P<fmt>[0-9.]*[a-z]|[]![])',  # end", 'C01.R6'),
@@ -2114,6 +2233,15 @@ CATALOGUE['C01'] = [
 
 # --------------------------------------------------------------------- C07
 CATALOGUE['C07'] = [
+    # halves of a cooperating edit: each one alone changes nothing
+    V('silent: only the scanner stops stripping the arguments',
+      'DT_HTML.py', "        args = text[a:e].strip()",
+      "        args = text[a:e]"),
+    V('silent: only the reader stops stripping the arguments',
+      'DT_HTML.py', "        args = args.strip()\n", "        pass\n"),
+    V('neither scanner nor reader strips the arguments', 'DT_HTML.py',
+      "        args = text[a:e].strip()", "        args = text[a:e]",
+      'C07.R8', extra=[("        args = args.strip()\n", "        pass\n")]),
     V('HTML gets its own skip_eol', 'DT_HTML.py',
       """    @security.private
     def SubTemplate(self, name):
